@@ -204,8 +204,9 @@ CLAIMS = {
              "most one document element/doctype, read from the real navigation views. Tie: status and tree dump equal the model's "
              "after every step.",
         note="The theorems are about the model's single forest; the code's redundant representation is tied per run (monitor + dump). "
-             "`OneRoot d` (at most one element and one document type at top level) is a hypothesis on the initial document: the element "
-             "half is proved for `absDocument`, the document-type half depends on the translated `prolog` production. Sibling "
+             "`OneRoot d` (at most one element and one document type at top level) is proved for every document the model's parser "
+             "delivers (`parsed_is_oneRoot`: the element half from `absDocument`, the document-type half by inversion of the derivation "
+             "of the translated `prolog` production), so `one_element_one_doctype_parsed` has no hypothesis left. Sibling "
              "navigation (previous/next) is read off the child list in the model and not separately stated. Foreign documents and "
              "document fragments are not in the generated histories. Trusted: Lean kernel, model Dom.lean, harness `dom`.",
         technique="Lean 4 proof (invariant by induction over operation sequences; counting lemmas over the forest) + monitor on the "
